@@ -370,6 +370,8 @@ def has_type(ctx: wire.Ctx, a: dict, x: Any, trust: bool = False) -> bool:
         if type(x) is not cls:
             return False
         for n, an, d in zip(a["names"], a["anns"], a["dflts"]):
+            if not hasattr(x, n):
+                return False    # a declared field holds no value: not a value of the class's type
             fv = getattr(x, n)
             if has_type(ctx, an, fv, trust):
                 continue
